@@ -33,7 +33,7 @@ for t, enc in (('BI383', ['ass_bi383', 'bi383_next']), ('BI447', ['ass_bi447', '
         OBLIGATIONS.append(ob('%s_k%d' % (t.lower(), k), t, k, units=['src/bitint.c'], enc=enc))
     for k in (1, 2):
         OBLIGATIONS.append(ob('%s_bitset_k%d' % (t.lower(), k), t, k, units=['src/bitint.c'], enc=enc, defs=['T_' + t, 'K=%d' % k, 'BITSET_FORM'],
-                              timeout=600, mem_gb=8, bounds='bitset representation holding %d symbolic value(s), extremes of the range included' % k,
+                              timeout=600 if k == 1 else 2400, mem_gb=8, tiers=('quick', 'thorough') if k == 1 else ('thorough',), bounds='bitset representation holding %d symbolic value(s), extremes of the range included' % k,
                               sym='%d inserted value(s), container in bitset form' % k))
     for k in (13, 15):
         OBLIGATIONS.append(ob('%s_k%d' % (t.lower(), k), t, k, units=['src/bitint.c'], enc=enc,
